@@ -20,13 +20,19 @@ func Self(race bool) string {
 		panic(err)
 	}
 	if race {
-		return filepath.Join(Root, "bin", "vcheck-race")
+		return filepath.Join(filepath.Dir(exe), "vcheck-race")
 	}
 	return exe
 }
 
 // Bin returns the path of a binary under /verif/bin.
-func Bin(name string) string { return filepath.Join(Root, "bin", name) }
+func Bin(name string) string {
+	if d := os.Getenv("VERIF_BIN"); d != "" {
+		return filepath.Join(d, name)
+	}
+	exe, _ := os.Executable()
+	return filepath.Join(filepath.Dir(exe), name)
+}
 
 // TempDir creates a scratch directory; the caller removes it.
 func TempDir(prefix string) string {
